@@ -87,6 +87,63 @@ def cfgsAt (p : Prog) (ns : List Nat) : List String := Id.run do
     out := out.push (if halted && n < target then "halted" else showCfg c)
   return out.toList
 
+/-- first `n` cells of a half-tape (blank-padded) -/
+def takePad (l : List Nat) (n : Nat) : List Nat :=
+  match n with
+  | 0 => []
+  | n + 1 => l.headD 0 :: takePad l.tail n
+
+def trimEq (a b : List Nat) : Bool :=
+  -- equality up to trailing blanks
+  let rec go : List Nat → List Nat → Bool
+    | [], [] => true
+    | [], y :: ys => y == 0 && go [] ys
+    | x :: xs, [] => x == 0 && go xs []
+    | x :: xs, y :: ys => x == y && go xs ys
+  go a b
+
+/-- Brute-force search for a translated-cycle (Lin) recurrence certificate on L0 within `budget`
+    steps: steps n < k with equal state and scan, the cells visited during [n,k] equal after the
+    shift δ = pos k − pos n, and the whole half-line on the side moved towards equal.
+    Returns (n, k − n, δ). Independent of blocks, cycles and the code's reset schedule. -/
+def linrec (p : Prog) (budget : Nat) : String := Id.run do
+  -- history of (state, pos, cfg)
+  let mut hist : Array (Nat × Int × Cfg) := #[]
+  let mut c : Cfg := Cfg.init
+  let mut pos : Int := 0
+  let mut term : String := ""
+  for n in [0:budget + 1] do
+    hist := hist.push (c.state, pos, c)
+    match p.get (c.state, c.scan) with
+    | none => term := s!"term=halt@{n}"; break
+    | some (pr, sh, q) =>
+      if c.scan == 0 && q == c.state && (if sh then c.right else c.left).isEmpty then
+        term := s!"term=spin@{n}"; break
+      c := move c pr sh q
+      pos := if sh then pos + 1 else pos - 1
+  if term != "" then return term
+  let N := hist.size
+  for n in [0:N] do
+    let (qn, pn, cn) := hist[n]!
+    let mut lo := pn
+    let mut hi := pn
+    for k in [n + 1:N] do
+      let (qk, pk, ck) := hist[k]!
+      -- extent visited during steps n .. k-1 (positions of the head while executing them)
+      let (_, pprev, _) := hist[k - 1]!
+      if pprev < lo then lo := pprev
+      if pprev > hi then hi := pprev
+      if qk == qn && ck.scan == cn.scan then
+        let L := (pn - lo).toNat
+        let R := (hi - pn).toNat
+        let d := pk - pn
+        let ok :=
+          if d > 0 then takePad ck.left L == takePad cn.left L && trimEq ck.right cn.right
+          else if d < 0 then takePad ck.right R == takePad cn.right R && trimEq ck.left cn.left
+          else takePad ck.left L == takePad cn.left L && takePad ck.right R == takePad cn.right R
+        if ok then return s!"cert={n},{k - n},{d}"
+  return "none"
+
 def showOptNat : Option Nat → String
   | none => "none"
   | some n => toString n
